@@ -195,4 +195,21 @@ def existSplit (eqs : List (List Dag Ã— Dag)) (vars : List Nat) : Nat â†’ Box â†
 def certifiedSplit (eqs : List (List Dag Ã— Dag)) (e u : Box) (vars : List Nat) (depth : Nat) : Bool :=
   pointConsts eqs && existSplit eqs vars depth e && Box.subset e u && Newton.uniqueCertVars eqs u vars
 
+/-! ### inner boxes refuted by an exactly evaluated point -/
+
+/-- the exact value `v` of a constraint violates the sign condition `spec` (some component does) -/
+def specViolated (spec : String) (v : Mat Rat) : Bool :=
+  if spec == "leq" then v.d.any (fun q => decide (0 < q))
+  else if spec == "lt" then v.d.any (fun q => decide (0 â‰¤ q))
+  else if spec == "geq" then v.d.any (fun q => decide (q < 0))
+  else if spec == "gt" then v.d.any (fun q => decide (q â‰¤ 0))
+  else false
+
+/-- REFUTATION of "the box is inner": the rational point `p` of the box violates a constraint -/
+def innerRefutedBy (cs : List ((List Dag Ã— Dag) Ã— String)) (b : Box) (p : List Rat) : Bool :=
+  ratIn p b && cs.any fun x =>
+    match Eval.root Alg.rat p (Eval.buildCalls Alg.rat x.1.1) x.1.2 with
+    | some v => specViolated x.2 v
+    | none => false
+
 end Ibex.Verdict
